@@ -1,9 +1,16 @@
 package main
 
+import (
+	"fmt"
+	"strings"
+
+	"golang.org/x/tools/go/ssa"
+)
+
 func init() { props["C10"] = checkC10 }
 
 func checkC10(r *Run) {
-	r.Explain = "C10: (R1) the two signature acceptors return 1 only for 65-byte signatures with low s (top bit of byte 32 clear) and recovery id < 4, with the recovered key equal to the given key; (R2) every acceptance entry of package cipher passes through them, and Sign normalises high s (s = n - s, recid ^= 1) on every path; (R3) every encoded field of a transaction is constrained on acceptance, the signed message of input i is AddSHA256(InnerHash, In[i]) in all three sibling implementations, block signatures cover the header hash, and decoding is exact (no trailing bytes)."
+	r.Explain = "C10: (R1) the two signature acceptors return 1 only for 65-byte signatures with low s (top bit of byte 32 clear) and recovery id < 4, with the recovered key equal to the given key; (R2) every acceptance entry of package cipher passes through them, and Sign normalises high s (s = n - s, recid ^= 1) on every path; (R4) Signature.ParseBytes sets r and s from the 32+32 signature bytes and does nothing else to them (parsing is injective), RecoverPublicKey accepts only with 0<r<n, 0<s<n tested on exactly those values; (R3) every encoded field of a transaction is constrained on acceptance, the signed message of input i is AddSHA256(InnerHash, In[i]) in all three sibling implementations, block signatures cover the header hash, and decoding is exact (no trailing bytes)."
 	r.NotDec = "that no other byte string verifies (needs curve mathematics, C14)"
 	lowS := []string{"($1[32] >> 7) != 1", "($1[32] >> 7) == 0", "$1[32] < 128", "($1[32] & 128) == 0", "$1[32] <= 127"}
 	r.RequireOnSuccess("C10-R1", "cipher/secp256k1-go.VerifySignature",
@@ -55,4 +62,79 @@ func checkC10(r *Run) {
 		req("no trailing bytes", "coin.decodeTransaction($0, $1)#0 == uint64(len($0))"))
 	r.RequireOnSuccess("C10-R3", "daemon.decodeGiveBlocksMessageExact",
 		req("no trailing bytes", "daemon.decodeGiveBlocksMessage($0, $1)#0 == uint64(len($0))"))
+	// R4: the (r, s) read from the wire are the signature's bytes themselves (parsing is injective) and the
+	// canonical-range test of r and s is live on the acceptance path
+	const pb = "cipher/secp256k1-go/secp256k1-go2.Signature.ParseBytes"
+	if fn := r.fn("C10-R4", pb); fn != nil {
+		ff := r.P.Facts(fn)
+		seen := map[string]bool{}
+		for _, b := range fn.Blocks {
+			for _, in := range b.Instrs {
+				ci, ok := in.(ssa.CallInstruction)
+				if !ok || len(ci.Common().Args) == 0 {
+					continue
+				}
+				recv := ff.Term(ci.Common().Args[0])
+				if recv != "$0.R" && recv != "$0.S" && recv != "$0.R.Int" && recv != "$0.S.Int" {
+					continue
+				}
+				key := calleeName(ci.Common()) + "(" + recv
+				if len(ci.Common().Args) > 1 {
+					key += ", " + ff.Term(ci.Common().Args[1])
+				}
+				key += ")"
+				okk := key == "big.Int.SetBytes($0.R.Int, $1[0:32])" || key == "big.Int.SetBytes($0.S.Int, $1[32:64])" || key == "big.Int.SetBytes($0.R.Int, $1[:32])"
+				seen[key] = true
+				r.Check("C10-R4", pb+": "+key+" only sets r/s from the signature's own bytes", r.P.Pos(ci.Pos()), okk, "any further transformation (reduction, normalisation) makes several byte strings parse to one signature")
+			}
+		}
+		for _, st := range ff.StoreFacts() {
+			if strings.HasPrefix(st.S, "$0.R") || strings.HasPrefix(st.S, "$0.S") {
+				r.Check("C10-R4", pb+": no direct store into r/s", r.P.Pos(st.In.Pos()), false, st.S)
+			}
+		}
+		r.Check("C10-R4", pb+": r and s are each set exactly once from their 32 bytes", r.P.Pos(fn.Pos()), len(seen) == 2 && seen["big.Int.SetBytes($0.S.Int, $1[32:64])"], fmt.Sprint(len(seen)))
+	}
+	const rp = "cipher/secp256k1-go/secp256k1-go2.RecoverPublicKey"
+	if fn := r.fn("C10-R4", rp); fn != nil {
+		ff := r.P.Facts(fn)
+		n := 0
+		for _, e := range ff.Exits() {
+			if e.Ret == nil || len(e.Ret.Results) != 2 {
+				continue
+			}
+			if c, ok := constInt(e.Ret.Results[1]); !ok || c.Int64() != 1 {
+				continue
+			}
+			n++
+			has := func(p string) bool {
+				for _, a := range ff.Must(e.Block) {
+					if glob(p, a.S) {
+						return true
+					}
+				}
+				return false
+			}
+			const O = "cipher/secp256k1-go/secp256k1-go2.TheCurve.Order.Int"
+			r.Check("C10-R4", rp+": accepted only with 0 < r < n", r.P.Pos(e.Ret.Pos()), has("0 < big.Int.Sign(local:sig.R.Int)") && has("big.Int.Cmp(local:sig.R.Int, "+O+") < 0"), "")
+			r.Check("C10-R4", rp+": accepted only with 0 < s < n", r.P.Pos(e.Ret.Pos()), has("0 < big.Int.Sign(local:sig.S.Int)") && has("big.Int.Cmp(local:sig.S.Int, "+O+") < 0"), "")
+			r.Check("C10-R4", rp+": accepted only with 64 signature bytes and a successful recovery", r.P.Pos(e.Ret.Pos()), has("len($0) == 64") && has("cipher/secp256k1-go/secp256k1-go2.Signature.Recover(local:sig, *)"), "")
+		}
+		r.Check("C10-R4", rp+": acceptance exits", "", n == 1, "")
+		// nothing touches sig between parsing and the range tests
+		r.RequireCallOrder("C10-R4", rp, "the range tests follow the parse directly", pb, "big.Int.Sign")
+		for _, b := range fn.Blocks {
+			for _, in := range b.Instrs {
+				ci, ok := in.(ssa.CallInstruction)
+				if !ok || len(ci.Common().Args) == 0 {
+					continue
+				}
+				recv := ff.Term(ci.Common().Args[0])
+				nm := calleeName(ci.Common())
+				if (strings.HasPrefix(recv, "local:sig.R") || strings.HasPrefix(recv, "local:sig.S")) && nm != "big.Int.Sign" && nm != "big.Int.Cmp" {
+					r.Check("C10-R4", rp+": r/s are only compared, never rewritten, before recovery", r.P.Pos(ci.Pos()), false, nm+"("+recv+", …)")
+				}
+			}
+		}
+	}
 }
